@@ -794,3 +794,20 @@ func Harness_app_twice() {
 	verifAssert("same-error-status", (e1 == nil) == (e2 == nil))
 	verifAssert("same-output", o1 == o2)
 }
+
+// Harness_app_odd_names: food names with stray separators, empty path segments, quotes, spaces
+// and very long segments through every tree and register command: the command terminates
+// (within the step and call-depth budgets) without a panic.
+func Harness_app_odd_names() {
+	names := []string{"coffee/", "tea//cup", "/x", "a/ /b", "//", "x/y/", "a/b/c/d/e/f/g/h/i/j/k/l", "\"q\"/x", "n/" + strings.Repeat("z", 70)}
+	name := names[verifChoose("name", len(names))]
+	verifLabel("name", name)
+	cmds := [][]string{{"bal"}, {"bal", "-c"}, {"bal", "--collapse-last"}, {"bal", "-s", "x"}, {"bal", "-s", "x", "-c"}, {"reg"}, {"reg", "--shorten"},
+		{"reg", "-f", "x"}, {"print"}, {"csv", "log"}, {"report", "quantity"}, {"report", "totals"}, {"report", "unresolved"}, {"csv", "database-resolved"}}
+	cmd := cmds[verifChoose("command", len(cmds))]
+	verifLabel("site", strings.Join(cmd, " "))
+	logText := "2021/01/01:\n  " + name + ": 1\n  other: 2\n2021/01/02:\n  " + name + ": 3\n"
+	dbText := name + ":\n  x: 2\nother:\n  " + name + ": 1\n"
+	hApp(-1, append([]string{"--logfile=" + verifFile("log", logText), "--database=" + verifFile("db", dbText)}, cmd...)...)
+	verifCover("ran")
+}
